@@ -252,6 +252,8 @@ fn split_files(rng: &mut Rng, lines: &[String]) -> Vec<Vec<u8>> {
     }
 }
 
+fn broken_possible(i: usize) -> bool { i % 8 != 7 }
+
 pub fn run(p: &Params) -> Run {
     let mut run = Run::new("C05");
     let mut rng = Rng::new(p.seed ^ 0x05);
@@ -294,7 +296,18 @@ pub fn run(p: &Params) -> Run {
             run.count("joined-file-with-repeated-lines");
         }
         let files = split_files(&mut rng, &main);
-        let joined_bytes = join_lines(&joined);
+        let mut joined_bytes = join_lines(&joined);
+        // one joined file in twenty holds a line that is not valid UTF-8 (somewhere before the end): the later lines must not be
+        // dropped silently — an error, or every well-formed line still a partner
+        let bad_utf8 = broken_possible(i) && joined.len() >= 2 && rng.chance(1, 20);
+        if bad_utf8 {
+            let at = rng.below(joined.len());
+            let mut b = join_lines(&joined[..at]);
+            b.extend_from_slice(b"#caf\xe9;1;x;\n");
+            b.extend_from_slice(&join_lines(&joined[at..]));
+            joined_bytes = b;
+            run.count("joined-file-with-invalid-utf8-line");
+        }
         std::fs::write(&jpath, &joined_bytes).unwrap();
         // one case in eight breaks the join: unknown column on either side, or a joined file that does not exist
         let broken = if i % 8 == 7 { 1 + rng.below(3) } else { 0 };
@@ -325,6 +338,8 @@ pub fn run(p: &Params) -> Run {
                 run.fail(desc.clone(), if broken == 3 { "missing-joined-file-not-reported" } else { "missing-join-column-not-reported" },
                          format!("the run answered {} with {} records", result.status, result.records().len()));
             }
+        } else if bad_utf8 && result.status.starts_with("err:") {
+            run.count("joined-file-invalid-utf8:reported");
         } else if matches!(st.kind, Kind::Cols | Kind::Star) {
             if let Some(exp) = nested_loop(&t, &u, &js, st.refs.as_deref(), &main, &joined, false) {
                 run.count(&format!("fanout:{}", exp.max_fanout.min(3)));
